@@ -17,6 +17,7 @@ import (
 	"time"
 
 	hg "github.com/mosaicnetworks/babble/src/hashgraph"
+	bnet "github.com/mosaicnetworks/babble/src/net"
 	"github.com/mosaicnetworks/babble/src/node"
 	"github.com/mosaicnetworks/babble/src/peers"
 	"github.com/mosaicnetworks/babble/src/proxy"
@@ -78,72 +79,170 @@ func pull(to, from *rcore, tx []byte, via func([]hg.WireEvent) []hg.WireEvent) e
 	return to.c.ProcessSigPool()
 }
 
-// joinRun (child process): three validators gossip; at step 10 a join request with the given moniker
-func (w *world) joinRun(moniker string) {
+// join request variants: what the joiner passes to peers.NewPeer
+var joinMonikers = map[string]string{
+	"baseline":   "joiner",
+	"ufffd":      "\ufffd",         // valid UTF-8, the code point the frame codec loops on
+	"normalised": "bad\xffmoniker", // invalid byte: peers.NewPeer (b2c4118) turns it into U+FFFD
+}
+
+func (w *world) joinItx(kind string) hg.InternalTransaction {
+	itx := hg.NewInternalTransactionJoin(*peers.NewPeer(w.phex[5], "joiner:1337", joinMonikers[kind]))
+	itx.Sign(w.privs[5])
+	return itx
+}
+
+// joinRun (child process): validators gossip; at step 10 core 0 puts the join request in its pool -
+// as node.processJoinRequest does once its gate (InternalTransaction.Verify) has accepted it, or, for
+// kind "hostile", as a validator that skips the gate.  Errors of single pulls are counted, not fatal.
+func (w *world) joinRun(kind string) {
 	rng := rand.New(rand.NewSource(seed))
-	cores := w.newCores(3)
+	n, moniker := 3, kind
+	if kind == "hostile" {
+		n, moniker = 4, "ufffd"
+	}
+	cores := w.newCores(n)
+	errs := 0
+	lastErr := ""
+	blocks := func() string {
+		b := []string{}
+		for _, c := range cores {
+			b = append(b, fmt.Sprint(c.blocks))
+		}
+		return strings.Join(b, ",")
+	}
 	for step := 0; step < 400; step++ {
 		if step == 10 {
-			itx := hg.NewInternalTransactionJoin(*peers.NewPeer(w.phex[5], "joiner:1337", moniker))
-			itx.Sign(w.privs[5])
-			cores[0].c.AddInternalTransaction(itx)
+			cores[0].c.AddInternalTransaction(w.joinItx(moniker))
 		}
+		a := rng.Intn(n)
+		b := (a + 1 + rng.Intn(n-1)) % n
+		if err := pull(cores[a], cores[b], []byte(fmt.Sprintf("tx%d", step)), nil); err != nil {
+			errs++
+			lastErr = err.Error()
+		}
+		if step%5 == 0 {
+			fmt.Printf("STEP %d blocks=%s errors=%d\n", step, blocks(), errs)
+		}
+	}
+	fmt.Printf("DONE blocks=%s peers=%d errors=%d last-error=%q\n", blocks(), cores[n-1].c.Validators().Len(), errs, lastErr)
+}
+
+// ffRun (child process): a node that never took part asks for a fast-forward and a hostile responder
+// answers with the genuine anchor block and its frame in which one peer's moniker was replaced by
+// U+FFFD (the peers hash only covers the keys, so the block's signatures still check out).
+// core.fastForward must return an error; before bc8842f it never returned (frame.Hash()).
+func (w *world) ffRun() {
+	rng := rand.New(rand.NewSource(seed))
+	cores := w.newCores(4)
+	for step := 0; step < 250; step++ {
 		a := rng.Intn(3)
 		b := (a + 1 + rng.Intn(2)) % 3
 		if err := pull(cores[a], cores[b], []byte(fmt.Sprintf("tx%d", step)), nil); err != nil {
-			fmt.Printf("ERROR step=%d %v\n", step, err)
-			os.Exit(0)
-		}
-		if step%5 == 0 {
-			fmt.Printf("STEP %d blocks=%d,%d,%d\n", step, cores[0].blocks, cores[1].blocks, cores[2].blocks)
+			fmt.Printf("ERROR gossip %v\n", err)
+			return
 		}
 	}
-	fmt.Printf("DONE blocks=%d,%d,%d peers=%d\n", cores[0].blocks, cores[1].blocks, cores[2].blocks, cores[0].c.Validators().Len())
+	block, frame, err := cores[0].c.GetAnchorBlockWithFrame()
+	if err != nil {
+		fmt.Printf("ERROR no anchor block %v\n", err)
+		return
+	}
+	tampered := *frame
+	tampered.Peers = append([]*peers.Peer{}, frame.Peers...)
+	p0 := *frame.Peers[0]
+	p0.Moniker = "\ufffd"
+	tampered.Peers[0] = &p0
+	fmt.Printf("STEP fast-forward block=%d round=%d\n", block.Index(), frame.Round)
+	err = cores[3].c.FastForward(block, &tampered)
+	fmt.Printf("DONE ff-error=%q\n", fmt.Sprint(err))
 }
 
-func (w *world) replayJoin() {
+// runChild runs `wire -only join:<kind>`; finished=false when it printed nothing for 10 s
+func runJoinChild(kind string) (finished bool, last string) {
 	exe, _ := os.Executable()
-	for _, m := range []struct{ name, moniker string }{{"baseline", "joiner"}, {"ufffd", "�"}} {
-		cmd := exec.Command(exe, "-seed", fmt.Sprint(seed), "-only", "join:"+m.name)
-		pipe, _ := cmd.StdoutPipe()
-		if err := cmd.Start(); err != nil {
-			die("start: %v", err)
+	cmd := exec.Command(exe, "-seed", fmt.Sprint(seed), "-only", "join:"+kind)
+	pipe, _ := cmd.StdoutPipe()
+	if err := cmd.Start(); err != nil {
+		die("start: %v", err)
+	}
+	lines := make(chan string, 16)
+	go func() {
+		sc := bufio.NewScanner(pipe)
+		for sc.Scan() {
+			lines <- sc.Text()
 		}
-		lines := make(chan string, 16)
-		go func() {
-			sc := bufio.NewScanner(pipe)
-			for sc.Scan() {
-				lines <- sc.Text()
-			}
-			close(lines)
-		}()
-		last, finished := "", false
-		deadline := time.After(60 * time.Second)
-	loop:
-		for {
-			select {
-			case l, ok := <-lines:
-				if !ok {
-					break loop
-				}
-				last = l
-				if strings.HasPrefix(l, "DONE") || strings.HasPrefix(l, "ERROR") {
-					finished = true
-				}
-				deadline = time.After(10 * time.Second) // no progress line for 10 s = stuck
-			case <-deadline:
+		close(lines)
+	}()
+	deadline := time.After(60 * time.Second)
+loop:
+	for {
+		select {
+		case l, ok := <-lines:
+			if !ok {
 				break loop
 			}
+			last = l
+			if strings.HasPrefix(l, "DONE") || strings.HasPrefix(l, "ERROR") {
+				finished = true
+			}
+			deadline = time.After(5 * time.Second) // no progress line for 5 s = stuck
+		case <-deadline:
+			break loop
 		}
-		cmd.Process.Kill()
-		cmd.Wait()
-		fmt.Fprintf(out, "Z replay ufffd-join %s moniker=%q finished=%v last=%q\n", m.name, m.moniker, finished, last)
-		if m.name == "baseline" && !finished {
-			die("baseline run did not finish: %s", last)
+	}
+	cmd.Process.Kill()
+	cmd.Wait()
+	return
+}
+
+// replayJoin: F1 on real cores.
+//  1. the request travels through the real TCP transport; the gate of node.processJoinRequest
+//     (InternalTransaction.Verify on what arrived) is evaluated;
+//  2. if the gate ACCEPTS, the request is dispatched to the cores: they must keep committing blocks;
+//  3. a validator that skips the gate (kind "hostile"): the other validators must keep committing.
+//
+// Before the text validation lands in /repo, 2 and 3 end with every core spinning in Frame.Hash:
+// `V C15 frame-hash-hangs ... str:UFFFD` (the known finding); afterwards the gate refuses and the
+// honest cores reject the hostile validator's event.
+func (w *world) replayJoin(l *links) {
+	if fin, last := runJoinChild("baseline"); !fin {
+		die("baseline run did not finish: %s", last)
+	} else {
+		fmt.Fprintf(out, "Z replay ufffd-join baseline moniker=%q %s\n", joinMonikers["baseline"], last)
+	}
+	for _, kind := range []string{"ufffd", "normalised"} {
+		itx := w.joinItx(kind)
+		var resp bnet.JoinResponse
+		l.gotJoin = nil
+		if err := l.t1.Join(l.addr2, &bnet.JoinRequest{InternalTransaction: itx}, &resp); err != nil {
+			die("join rpc: %v", err)
 		}
-		if m.name == "ufffd" && !finished {
-			violation("frame-hash-hangs", fmt.Sprintf("join-request str:UFFFD: no progress for 10 s after %q (cores spin in Frame.Hash)", last))
+		arrived := l.gotJoin.InternalTransaction
+		gate := safeItxVerify(&arrived)
+		fmt.Fprintf(out, "Z replay ufffd-join %s moniker-given=%q moniker-arrived=%q gate-accepts=%v\n", kind, joinMonikers[kind], arrived.Body.Peer.Moniker, gate)
+		w.stats["join-gate:"+kind+":"+map[bool]string{true: "accepted", false: "refused"}[gate]]++
+		if !gate {
+			continue
 		}
+		fin, last := runJoinChild(kind)
+		fmt.Fprintf(out, "Z replay ufffd-join %s dispatched finished=%v last=%q\n", kind, fin, last)
+		if !fin {
+			violation("frame-hash-hangs", fmt.Sprintf("join-request %s str:UFFFD: accepted by the gate, then no progress for 5 s after %q (cores spin in Frame.Hash)", kind, last))
+		}
+	}
+	if fin, last := runJoinChild("ff"); true {
+		fmt.Fprintf(out, "Z replay ufffd-join fast-forward-response finished=%v last=%q\n", fin, last)
+		if !fin {
+			violation("frame-hash-hangs", fmt.Sprintf("fast-forward-response str:UFFFD: core.fastForward does not return after %q (Frame.Hash)", last))
+		} else if !strings.HasPrefix(last, "DONE") || strings.Contains(last, `ff-error="<nil>"`) {
+			violation("tampered-frame-accepted", "fast-forward-response str:UFFFD "+last)
+		}
+	}
+	fin, last := runJoinChild("hostile")
+	fmt.Fprintf(out, "Z replay ufffd-join hostile-validator finished=%v last=%q\n", fin, last)
+	if !fin {
+		violation("frame-hash-hangs", fmt.Sprintf("hostile-validator str:UFFFD: a validator's own event carries the text; no progress for 5 s after %q (cores spin in Frame.Hash)", last))
 	}
 }
 
